@@ -122,6 +122,48 @@ def replay_seeds(pid):
     return 0
 
 
+def replay_benign(pid):
+    """/verif/benign/*.diff: behaviour-preserving refactorings written by independent agents (extract a helper, name or inline a
+    temporary, loop <-> comprehension, guard clauses, if/else <-> conditional expression, ...).  The check must give the same
+    verdict on every one of them as on the tree itself: a refactoring that changes no behaviour must not raise an alarm."""
+    pats = sorted((VERIF / "benign").glob("*patch*.diff"))
+    if not pats:
+        return 0
+    base = Path(tempfile.mkdtemp(prefix="sa-benign-"))
+    try:
+        def one(d):
+            w = Path(tempfile.mkdtemp(prefix=f"{d.stem}-", dir=str(base)))
+            shutil.copytree(REPO / "shangrla", w / "shangrla", ignore=shutil.ignore_patterns("__pycache__"))
+            r = subprocess.run(["patch", "-p1", "-s", "-i", str(d)], cwd=w, capture_output=True, text=True)
+            if r.returncode != 0:
+                return d.name, "patch-no-longer-applies"
+            env = dict(os.environ, VERIF_REPO=str(w), VERIF_EVIDENCE_DIR=str(w / "evidence"))
+            r = subprocess.run([sys.executable, "-m", "sa.main", pid, "--tier", "quick"], cwd=str(VERIF), env=env, capture_output=True, text=True, timeout=600)
+            return d.name, ("silent" if r.returncode == 0 else f"ALARM rc={r.returncode}: " + " | ".join(l[:160] for l in r.stdout.splitlines() if l.startswith(("REFUTED", "ANALYSIS-ERROR")))[:400])
+        with ThreadPoolExecutor(max_workers=min(16, os.cpu_count() or 4)) as ex:
+            res = list(ex.map(one, pats))
+    finally:
+        shutil.rmtree(base, ignore_errors=True)
+    silent = [n for n, st in res if st == "silent"]
+    stale = [n for n, st in res if st == "patch-no-longer-applies"]
+    bad = [(n, st) for n, st in res if st.startswith("ALARM")]
+    print(f"selftest {pid}: benign refactorings: {len(silent)} silent, {len(stale)} no longer apply, {len(bad)} alarm(s) of {len(res)}")
+    ev = Path(os.environ.get("VERIF_EVIDENCE_DIR", str(VERIF / "evidence"))) / f"{pid}.json"
+    if ev.exists():
+        try:
+            data = json.loads(ev.read_text())
+            data["coverage"]["benign_refactorings_replayed"] = {"silent": len(silent), "no_longer_apply": stale, "alarms": [n for n, _ in bad]}
+            ev.write_text(json.dumps(data, indent=1))
+        except Exception:
+            pass
+    if bad:
+        for n, st in bad:
+            print(f"  [FALSE-ALARM] {n}: {st}")
+        print(f"ANALYSIS-ERROR property={pid}: the check raises an alarm on behaviour-preserving refactoring(s): {[n for n, _ in bad]}")
+        return 2
+    return 0
+
+
 def run_for(pid, verbose=True, only=None):
     vs = variants_for(pid)
     if only:
@@ -163,6 +205,10 @@ def run_for(pid, verbose=True, only=None):
     # the independently seeded changes filed for this property must still be reported (or still be recorded as honest misses)
     if not only:
         rc = replay_seeds(pid)
+        if rc != 0:
+            return rc
+    if not only:
+        rc = replay_benign(pid)
         if rc != 0:
             return rc
     # the automatic benign twin: every local variable of every function renamed (tools/alpha_twin.py)
